@@ -52,7 +52,8 @@ RULE = ("case = (n, per-letter dictionary (default X,Y,Z plus user-added random 
         "counter (the case ends without a verdict); a silently wrong architecture is still reported; the generate_hilbert_space oracle demands 'all 2^n "
         "states, each once' (listing order / element type: counter); "
         "non-trivial iff the basis has a non-Z letter and psi/rho has a non-real entry; distinct by hash of (dictionary, basis, operand, path)")
-TH = {"rotate_psi": "C04_rotate_psi", "rotate_rho": "C04_rotate_rho / C04_rotate_rho_hermitian",
+TH = {"rotate_psi": "C04_rotate_psi (model-derived psi: C04_rotate_psi_model)",
+      "rotate_rho": "C04_rotate_rho / C04_rotate_rho_hermitian (model-derived rho: C04_rotate_rho_model)",
       "inner": "C04_inner_prod_enum_dense", "probs": "C04_rho_probs_enum_dense",
       "expand": "C04_expand_enumerates / C04_rotate_basis_state"}
 
@@ -60,6 +61,7 @@ REQUIRED_THEOREMS = ["C04_unitaries_of", "C04_create_dict", "C04_rotate_psi_dict
                      "C04_inner_prod_dict", "C04_rho_probs_dict", "C04_fastK_eq_dense_patched", "C04_fast_paths_ignore_unrotated", "C04_fastK_unitary",
                      "C04_inner_prod_probs_sum", "C04_model_probs_physical_psi", "C04_model_probs_physical_pos", "C04_model_probs_physical",
                      "C04_Z_override_fast_ne_dense",
+                     "C04_rotate_rho_model", "C04_rotate_psi_model",   # second audit C04-1: operands TAKEN FROM THE MODEL, no hypothesis
                      "C04_index_convention", "C04_rotate_psi", "C04_rotate_rho", "C04_rotate_rho_hermitian", "C04_rotate_psi_loop",
                      "C04_rotate_rho_loop", "C04_dense_eq_kronecker", "C04_fastK_eq_dense", "C04_expand_enumerates", "C04_rotate_basis_state",
                      "C04_inner_prod_enum", "C04_inner_prod_enum_dense", "C04_rho_probs_enum", "C04_rho_probs_enum_dense",
